@@ -57,7 +57,11 @@ FSOnly(cfg) == \A d \in ToSet(cfg.deps): d[3] = "FS"
 InitRem(cfg, t) == (cfg.tasks[t].work * (4 - cfg.tasks[t].prog)) \div 4
 DoneByDefault(cfg, t) == cfg.tasks[t].prog >= 4
 TaskRank(cfg) == [t \in Tasks(cfg) |-> cfg.tasks[t].rank]
-TasksOf(cfg, c) == { t \in Tasks(cfg) : cfg.tasks[t].comp = c }
+\* the tasks a component follows: those bound to it, plus tasks handed to its constructor
+\* ("watch": no back-reference, so they never trigger its placement)
+TasksOf(cfg, c) ==
+  { t \in Tasks(cfg) : cfg.tasks[t].comp = c }
+  \cup (IF "watch" \in DOMAIN cfg.comps[c] THEN ToSet(cfg.comps[c].watch) ELSE {})
 
 \* ---- organization ------------------------------------------------------
 Skill(cfg, w, t) == cfg.workers[w].skill[t]
